@@ -107,10 +107,9 @@ fn read_color(slot: &Node) -> Option<String> {
 
 fn format_hex(raw: &str) -> String {
     let trimmed = raw.trim_start_matches('#');
-    let rgb = if trimmed.len() == 8 {
-        &trimmed[2..]
-    } else {
-        trimmed
+    let rgb = match trimmed.get(2..) {
+        Some(rgb) if trimmed.len() == 8 => rgb,
+        _ => trimmed,
     };
     format!("#{}", rgb.to_ascii_uppercase())
 }
